@@ -1411,6 +1411,9 @@ def _validate_patch_target(r: "Repo", repo_path: bytes, tree_path: bytes) -> byt
         verify_leading_dirs(tree_path, [], repo_path)
     except InvalidPathError:
         raise ValueError(f"refusing to write through symlink: {tree_path!r}")
+    if os.path.islink(fs_path):
+        # the target itself is a symlink: writing would follow it
+        raise ValueError(f"refusing to write through symlink: {tree_path!r}")
     return fs_path
 
 
